@@ -320,7 +320,7 @@ def acquire (cfg : Cfg) (env : Env) (flt : Faults) (s : St) : R Unit :=
     | none => .ok () ({ s with dirExists := true, dirBuild := b }.log .usedCachedDir)
   | none => getFile cfg env flt s
 
-/-- the body of the `try:` of `_resolve` -/
+/-- the patch/diff part of the `try:` of `_resolve` -/
 def patchPhase (cfg : Cfg) (env : Env) (flt : Faults) (s : St) : R Unit :=
   match applyPatch cfg env flt s with
   | .err e s => .err e s
@@ -337,7 +337,7 @@ def resolve (cfg : Cfg) (env : Env) (flt : Faults) : Result :=
     if !env.dirIsDir then ⟨false, some .wrap, .early, s⟩ else finish s
   else
     match acquire cfg env flt s with
-    | .err e s => ⟨false, some e, .acquire, s⟩
+    | .err e s => ⟨false, some e, .acquire, cleanup s⟩   -- the acquisition is inside the same `try`
     | .ok _ s =>
       match patchPhase cfg env flt s with
       | .err e s => ⟨false, some e, .patch, cleanup s⟩
